@@ -23,10 +23,13 @@ def eval_program(arg) -> dict:
     prog, case, rng = progrun.make_program(
         PROP, seed, stream, scratch, stream % 3 == 1,
         mc_position=['first', 'middle', 'last'][(stream // 3) % 3])
+    # cover every semantics x direction combination in every run, whatever the random draw
     if stream % 2 == 0:
-        # make sure multi-threaded requires ports are covered in every run
         prog.enc['requires'] = {'sts': 'NONE', 'mts': 'ALL'}
-        case['cfg'] = prog.enc
+    elif not prog.enc.get('multiclient'):
+        prog.enc['provides'] = {'sts': 'ALL', 'mts': 'NONE'}
+        prog.enc['requires'] = {'sts': 'REMAINING', 'mts': 'NONE'}
+    case['cfg'] = prog.enc
     out = {'violations': [], 'counts': {}}
     flavor = 'plain'
     if not progrun.build_or_report(prog, case, out, [flavor]):
